@@ -245,6 +245,9 @@ fn parse_case(bytes: &[u8], radix: u32) -> Verdict {
             if let (Some(g), Some(w)) = (&gi, &wi) {
                 ctx(eq_bi(g, w), "BigInt::from_str")?;
             }
+            if let (Some(g), Some(w)) = (&gu, &wu) {
+                ctx(eq_bu(g, &w.mag), "BigUint::from_str")?;
+            }
         }
     }
     let ndig = rec_i.as_ref().map_or(0, |(_, d)| d.len());
